@@ -54,6 +54,7 @@ def run_shards(binpath, check, tier, nshards, extra_args, wdir, seed, wall_cap):
             os.remove(os.path.join(wdir, f))
     procs = {}
     deaths = []
+    capped = []
     results = {}
     t0 = time.time()
 
@@ -106,10 +107,13 @@ def run_shards(binpath, check, tier, nshards, extra_args, wdir, seed, wall_cap):
                 die("shard %d died (rc=%s) before announcing a case" % (k, rc))
             deaths.append({"shard": k, "index": idx, "rc": rc, "log_tail": tail})
             restarts += 1
-            if restarts > 400:
-                die("too many worker deaths (>400)")
+            if restarts > 48:
+                # a defect that kills the worker on very many cases: stop restarting, keep the
+                # deaths observed so far as the verdict (the run is reported as capped)
+                capped.append("stopped restarting workers after 48 deaths; shard %d not finished" % k)
+                continue
             start(k, resume_after=idx, gen=gen + 1)
-    return results, deaths, time.time() - t0
+    return results, deaths, time.time() - t0, capped
 
 
 def merge(results):
